@@ -204,15 +204,15 @@ func enumStates(n int, broken bool) []string {
 
 type Expect struct {
 	N        int
-	ReachAll uint32 // nodes reachable from the root through present nodes, no depth limit
-	Dist     []int  // shortest distance (-1 unreachable)
+	ReachAll uint32   // nodes reachable from the root through present nodes, no depth limit
+	Dist     []int    // shortest distance (-1 unreachable)
 	Depths   []uint32 // Depths[c] bit d set = some path root->c through present nodes has length d
-	E        uint32 // nodes the visit callback must accept in a completed walk
-	X        uint32 // nodes whose links are requested in a completed walk (E plus a skipped root)
-	F        uint32 // X ∩ failing
-	Fmiss    uint32 // X ∩ missing
-	U        uint32 // F not swallowed by the configured handlers: the walk must fail iff non-empty
-	Local    uint32 // fetch API: blocks that must be local afterwards (completed walk)
+	E        uint32   // nodes the visit callback must accept in a completed walk
+	X        uint32   // nodes whose links are requested in a completed walk (E plus a skipped root)
+	F        uint32   // X ∩ failing
+	Fmiss    uint32   // X ∩ missing
+	U        uint32   // F not swallowed by the configured handlers: the walk must fail iff non-empty
+	Local    uint32   // fetch API: blocks that must be local afterwards (completed walk)
 	Sharing  bool
 	LimBinds bool
 }
